@@ -426,4 +426,21 @@ theorem C15_genloadv1_field_vars_fresh (g : VIn) (m : S) :
     (∀ f ∈ g.fields, f.hasDefault = false → fieldVar f.name ∈ ctorVars g) :=
   ⟨fieldVar_fresh m, ctorVars_nodup g, fun f hf hd => ctorVars_complete g f hf hd⟩
 
+open DW.GenLoadV1 in
+/-- **C15 (v1 skeleton, quoting).**  Every piece of user text the skeleton writes into the source — the field name in `field=…`,
+each alias in `o.get(…, MISSING)`, the tag key in `… in o`, the name of a defaulted CatchAll field — goes through `repr` (and reads
+back as the same text, `C15_repr_roundtrip`); the only other use of a field name is inside the identifier `__<f>__v`.  So quotes,
+backslashes, braces or newlines in aliases and tag keys cannot end a literal or open an expression in the generated function (the
+byte-for-byte correspondence runs over exactly such texts). -/
+theorem C15_genloadv1_text_is_literal (printable : Char → Bool) (f : VField) (k n : S) (g : VIn) (hg : g.tagKey = some k)
+    (hp : g.preAssign = true) :
+    (fieldLit printable f).text = "field=".toList ++ pyRepr printable f.name ∧
+    (getPart printable (.lit k)).text = "v1=o.get(".toList ++ pyRepr printable k ++ ", MISSING)".toList ∧
+    getCond printable (.lit k) = "(v1 := o.get(".toList ++ pyRepr printable k ++ ", MISSING)) is not MISSING".toList ∧
+    (catchDfltPart printable n).text = "init_kwargs[".toList ++ pyRepr printable n ++ "] = ".toList ++ catchAllDef ∧
+    (∃ rest, tagStmts printable g = S1.s0 (.line [fieldNone]) :: S1.ifc (pyRepr printable k ++ " in o".toList) ["o".toList] [] [] [.line [incPart]] :: rest) ∧
+    pyUnquote (pyRepr printable k) = some k := by
+  refine ⟨rfl, rfl, rfl, rfl, ⟨[], ?_⟩, C15_repr_roundtrip printable k⟩
+  simp [tagStmts, hg, hp, DW.GenLoad.t]
+
 end DW.Props.C15
